@@ -66,7 +66,9 @@ def prefix_events(rec, origin):
 
 
 def base_target(nthreads=2, names=True, **kw):
-    t = {"threads": [{"mode": "pause", "stack_pages": 2 + (i % 3), "sp_off": 200 + 517 * i,
+    # (the stack pointer stays inside the thread's own stack: beyond it, what is captured is whatever mapping comes next - possibly
+    # the live stack of a running thread, which no comparison with the target's memory afterwards can be made against)
+    t = {"threads": [{"mode": "pause", "stack_pages": 2 + (i % 3), "sp_off": (200 + 517 * i) % ((2 + (i % 3)) * 4096 - 256),
                       **({"name_hex": ("thr%d" % i).encode().hex()} if names else {})} for i in range(nthreads)]}
     t.update(kw)
     return t
@@ -127,7 +129,8 @@ def c01_event(run, d):
     scn = run["scn"]
     rsp0 = sum(1 for t in scn["target"].get("threads", []) if t.get("mode") == "rsp0")
     ne = names_event(run, d)
-    exp = {"threads": len(d["oracle"]["tids"]) - rsp0, "names": sum(1 for t in ne.get("listed", []) if t["readable"]), "mem": got["mem"]}
+    held = len((run.get("end") or {}).get("pretraced", []))          # threads another tracer holds: not attachable, left out
+    exp = {"threads": len(d["oracle"]["tids"]) - rsp0 - held, "names": sum(1 for t in ne.get("listed", []) if t["readable"]), "mem": got["mem"]}
     h = d["header"]
     return {"ev": "c01", "origin": run["id"], "dump_no": d.get("dump_no", 1), "imgLen": d["imgLen"], "sigOk": bool(h.get("sig_ok")), "version": h.get("version", 0),
             "count": h.get("stream_count", 0), "dirRva": h.get("dir_rva", 0), "dir": d["dir"], "sizeOk": size_ok, "objs": objs,
@@ -192,7 +195,7 @@ def c11_event(run, d):
     da = scn.get("writer", {}).get("direct_auxv")
     complete = isinstance(da, dict) and all(da.get(k) for k in ("phnum", "phdr", "gate", "entry"))
     nonutf8 = sum(1 for t in scn["target"].get("threads", []) if not _utf8(t.get("name_hex", "")))
-    return {"ev": "c11", "origin": run["id"], "fp": fp, "nameFail": len(faults.get("name_fail", [])) + nonutf8, "threads": nthreads, "exited": exited, "rsp0": rsp0,
+    return {"ev": "c11", "origin": run["id"], "fp": fp, "nameFail": len(faults.get("name_fail", [])) + nonutf8, "threads": nthreads, "exited": exited, "refused": len(scn.get("pretrace_slots", [])) + (1 if scn.get("pretrace_main") else 0), "rsp0": rsp0,
             "prinNotRef": bool(scn.get("expect", {}).get("prinNotRef", False)), "dsoFail": bool(scn.get("expect", {}).get("dsoFail", False)),
             "unreadable": list(scn.get("unreadable", [])), "auxvComplete": bool(complete), "outcome": d.get("outcome"), "error": d.get("error", ""), "wellFormed": wf, "paths": paths, "present": present}
 
@@ -251,7 +254,7 @@ def c19_event(run, d, cur_writer):
 # Cross pool: targets and writer configurations in which every knob the harness has is drawn independently, so that the
 # per-property projections are also exercised on combinations no dedicated scenario list contains (option x option,
 # option x process shape).  Each property's check runs the pool itself and applies its own projection.
-CROSS_NAMES = [b"", b"worker", b"0123456789abcde", "caf\u00e9".encode(), b"two words", b"trail ", b"two\nlines", b"carriage\r", "\U0001f600x".encode(), b"tab\there"]
+CROSS_NAMES = [b"caf\xe9", b"", b"worker", b"0123456789abcde", "caf\u00e9".encode(), b"two words", b"trail ", b"two\nlines", b"carriage\r", "\U0001f600x".encode(), b"tab\there"]
 
 
 def cross_scenarios(quick, seed, n=None, tag="cross"):
